@@ -712,6 +712,21 @@ loop:
 					continue
 				}
 
+				// A PRIORITY frame may name a stream that is still idle, but it
+				// does not open it (RFC 7540 5.1, 5.3). Priorities are not acted
+				// upon, so nothing is kept for such a stream: an entry made here
+				// was never counted, found again or closed, the HEADERS that
+				// later opened the stream made a second one, and a peer could
+				// add as many as it liked.
+				if fr.Type() == FramePriority {
+					if fr.Body().(*Priority).Stream() == fr.Stream() {
+						sc.writeGoAway(fr.Stream(), ProtocolError, "stream that depends on itself")
+						break loop
+					}
+
+					continue
+				}
+
 				// if the client has more open streams than the maximum allowed OR
 				//   the connection is closing, then refuse the stream
 				if openStreams >= int(sc.st.maxStreams) || wasClosing {
